@@ -126,7 +126,9 @@ def one(ctx, desc):
                 continue
             b = r2[n]
             for col in ("vin", "vout", "iin", "iout", "pwr", "loss"):
-                if not solved.close(r[col], b[col], scale=1e-3 * solved.row_scale(r), rel=1e-7, absl=1e-9):
+                # both solves stop at numpy's fixed atol = 1e-8 on every voltage and current
+                t = oracles.ptol(r, TOL) if col in ("pwr", "loss") else 8 * solved.ATOL * (1 + abs(r[col]))
+                if abs(r[col] - b[col]) > t + 1e-7 * max(abs(r[col]), abs(b[col])):
                     kind = [c["kind"] for c in desc["comps"] if c["name"] == n][0]
                     ctx.oracle(desc, "phase_behaviour", kind, {"col": col},
                                {"phase": p["phase"], "row": n, "col": col, "phase_table": r[col], "behaviour_system": b[col],
